@@ -9,14 +9,17 @@ use vaporetto_rules::{
     SentenceFilter, StringFilter,
 };
 
-const LINES: [&str; 19] = [
+const LINES: [&str; 21] = [
     "まぁ社長は火星猫だ", "", "これは12個のABCです", "a b/c\\d", "火星に行きました。", " ", "ｶﾞｷﾞ half-width ｱ", "１２３４５円", "x", "e\u{301}e\u{301}猫",
     "a\0b", "//", "\\", "まぁ良いだろう 火星猫",
     // half-width characters whose full-width form has the same byte length; runs a character-type filter merges across
     // words the model knows; digits next to kanji
     "｢火星猫｣､まぁ良いだろう｡", "ラ－メン", "火星猫", "12火星猫だ", "abc｢火星猫｣",
+    // digits and kanji side by side with a predicted boundary between them (two filters of different types must not join them)
+    "火星4猫5だ6", "火星に12行きました",
 ];
-const WSCONST: [&[&str]; 4] = [&[], &["D"], &["G"], &["K", "R"]];
+// (the last: two character types that meet in the lines -- digits next to kanji; each type is joined with ITSELF only)
+const WSCONST: [&[&str]; 5] = [&[], &["D"], &["G"], &["K", "R"], &["D", "K"]];
 
 fn work_dir() -> std::path::PathBuf {
     let d = std::path::Path::new(env!("CARGO_MANIFEST_DIR")).join("../out/c20");
@@ -149,7 +152,7 @@ fn first_diff(a: &str, b: &str) -> String {
 }
 
 fn check_predict(code: usize) -> Option<String> {
-    let (no_norm, tags, scores, tag_scores, w) = (code & 1 != 0, code & 2 != 0, code & 4 != 0, code & 8 != 0, (code >> 4) & 3);
+    let (no_norm, tags, scores, tag_scores, w) = (code & 1 != 0, code & 2 != 0, code & 4 != 0, code & 8 != 0, (code >> 4) % 5);
     let model = write_model();
     let mut args = vec!["--model".to_string(), model.to_string_lossy().to_string()];
     if no_norm { args.push("--no-norm".into()); }
@@ -284,7 +287,7 @@ fn check(kind: &str, code: usize) -> Option<String> {
 }
 
 pub fn search() -> Option<String> {
-    for code in 0..64 {
+    for code in 0..80 {
         if let Some(d) = check("p", code) {
             return Some(d);
         }
